@@ -438,6 +438,16 @@ func (b *B) Bin(op Op, x, y *T) *T {
 				return x
 			}
 		}
+		// (sext(a) * c) / c -> sext(a), (sext(a) * c) % c -> 0 when the product cannot overflow
+		if (op == OSDiv || op == OSRem) && y.Op == OConst && x.Op == OMul && x.B == y && x.A.Op == OSExt && x.A.A.W <= 32 && w == 64 {
+			c := signExt(y.V, w)
+			if c != 0 && c > -(1<<31) && c < (1<<31) {
+				if op == OSDiv {
+					return x.A
+				}
+				return b.Const(w, 0)
+			}
+		}
 		// (a-b)+b -> a
 		if op == OAdd {
 			if x.Op == OSub && x.B == y {
